@@ -268,12 +268,13 @@ async fn control_over(t: Transport, c: &Creds, g: &mut Gen, log: &Arc<Mutex<TLog
     }
 }
 
-/// to the server of this plan: raw bytes on the port, or (WebSocket cells, every other call) inside WebSocket messages
-async fn shoot_server(ws: bool, nth: u64, wire: &[u8], pieces: usize, hold_ms: u64) {
-    if ws && nth % 2 == 0 {
-        shoot_ws(server_addr(), wire, pieces, hold_ms).await
-    } else {
-        shoot(server_addr(), wire, pieces, hold_ms).await
+/// to the server of this plan: raw bytes on the port, or (WebSocket cells, every other call) inside WebSocket messages;
+/// TLS and QUIC cells: inside the carrier, so that the bytes reach the protocol decoder behind it
+async fn shoot_server(carrier: Transport, nth: u64, wire: &[u8], pieces: usize, hold_ms: u64) {
+    match carrier {
+        Transport::Ws if nth % 2 == 0 => shoot_ws(server_addr(), wire, pieces, hold_ms).await,
+        Transport::Tls | Transport::Quic => shoot_over(carrier, wire, pieces, hold_ms).await,
+        _ => shoot(server_addr(), wire, pieces, hold_ms).await,
     }
 }
 
@@ -422,7 +423,8 @@ pub fn gen_adv(prop: &str, seed: u64, thorough: bool) -> Plan {
     // WebSocketFramed adapter in front of the same decoders)
     // C06: the carrier cycles over tcp / ws / tls / quic - the credential check sits behind every one of them
     let transport = if prop == "C07" {
-        if (seed / cells.len() as u64) % 3 == 2 { Transport::Ws } else { Transport::Tcp }
+        // three plain rounds (the exhaustive short strings need 16 of them per cell), then ws, tls, quic
+        [Transport::Tcp, Transport::Tcp, Transport::Ws, Transport::Tcp, Transport::Tls, Transport::Quic][(seed / cells.len() as u64 % 6) as usize]
     } else {
         [Transport::Tcp, Transport::Ws, Transport::Tls, Transport::Quic][(seed / cells.len() as u64 % 4) as usize]
     };
@@ -1047,11 +1049,15 @@ fn upgrade_grammar(g: &mut Gen) -> Vec<u8> {
 
 pub fn execute_c07(plan: &Plan) -> Outcome {
     let c = creds(&plan.config);
-    let cell = format!("{}{}{}", plan.config.family(), if c.user_keys.is_empty() { "" } else { "+users" }, if plan.config.transport == Transport::Ws { "/ws" } else { "" });
+    let carrier = plan.config.transport;
+    let cell = format!("{}{}{}", plan.config.family(), if c.user_keys.is_empty() { "" } else { "+users" }, match carrier { Transport::Ws => "/ws", Transport::Tls => "/tls", Transport::Quic => "/quic", _ => "" });
     let round = plan.extra["round"].as_u64().unwrap_or(0);
     let mut g = Gen::new(plan.extra["sub_seed"].as_u64().unwrap_or(1), 71);
     let attacks = plan.extra["attacks"].as_u64().unwrap_or(40);
-    let ws = plan.config.transport == Transport::Ws;
+    let ws = carrier == Transport::Ws;
+    let datagrams = plan.config.proto == Proto::Shadowsocks && carrier != Transport::Quic;
+    // (every input of a tls / quic cell costs a real TLS 1.3 handshake: fewer of them per plan)
+    let attacks = if matches!(carrier, Transport::Tls | Transport::Quic) { attacks.min(30) } else { attacks };
     let out = rt::run_sim(plan.seed, plan.net_seed, plan.knobs.to_knobs(), || async {
         let mut notes: Vec<(String, String)> = Vec::new();
         let mut counts = BTreeMap::<String, u64>::new();
@@ -1068,7 +1074,10 @@ pub fn execute_c07(plan: &Plan) -> Outcome {
         let mut bump = |k: &str, n: u64| *counts.entry(k.to_owned()).or_insert(0) += n;
         // (a) short strings, exhaustively: the block of first bytes this plan covers depends on the round
         let first_bytes: Vec<u8> = (0..16u32).map(|i| ((round as u32 * 16 + i) % 256) as u8).collect();
-        for dst in [server_addr(), client_addr()] {
+        // (tls / quic cells: the exhaustive strings go to the client's local port only - the server's port speaks TLS or is a
+        // datagram socket there, which is C08's ground)
+        let dsts = if matches!(carrier, Transport::Tls | Transport::Quic) { vec![client_addr()] } else { vec![server_addr(), client_addr()] };
+        for dst in dsts {
             shoot(dst, &[], 1, 0).await;
             for a in &first_bytes {
                 shoot(dst, &[*a], 1, if *a % 2 == 0 { 5 } else { 0 }).await;
@@ -1090,20 +1099,20 @@ pub fn execute_c07(plan: &Plan) -> Outcome {
             match i % 5 {
                 0 => {
                     let w = structured_garbage(&c, &mut g);
-                    shoot_server(ws, i / 5, &w, g.range(1, 4) as usize, 10).await;
+                    shoot_server(carrier, i / 5, &w, g.range(1, 4) as usize, 10).await;
                     bump("structured_garbage_to_server", 1);
                 }
                 1 => {
                     let full = RefClient::start(&c, &mut g, unix_now(), &addr, b"early-close-payload", &ClientOpts::default()).1;
                     let cut = g.range(0, full.len() as u64) as usize;
-                    shoot_server(ws, i / 5, &full[..cut], g.range(1, 3) as usize, 0).await;
+                    shoot_server(carrier, i / 5, &full[..cut], g.range(1, 3) as usize, 0).await;
                     bump("early_close_of_valid_handshake", 1);
                 }
                 2 | 3 => {
                     let (name, w) = malformed_authenticated(&c, &mut g, i / 5 + round);
                     let before = out_panics();
                     // (WebSocket cells: always inside messages - the malformed content has to reach the protocol decoder)
-                    shoot_server(ws, 0, &w, 1 + (i % 2) as usize, 20).await;
+                    shoot_server(carrier, 0, &w, 1 + (i % 2) as usize, 20).await;
                     if out_panics() != before {
                         notes.push((format!("panic-on/{name}"), format!("the server panicked on an authenticated but malformed frame: {name}")));
                     }
@@ -1134,7 +1143,7 @@ pub fn execute_c07(plan: &Plan) -> Outcome {
         // (f) datagrams: to the server's UDP port (Shadowsocks) and to the client's local SOCKS5-UDP port
         let sock = UdpSocket::bind(SocketAddr::new(IpAddr::V4(Ipv4Addr::LOCALHOST), 0)).await.unwrap();
         for i in 0..attacks {
-            if plan.config.proto == Proto::Shadowsocks {
+            if datagrams {
                 let d = match i % 4 {
                     0 => {
                         let n = g.range(0, 120) as usize;
@@ -1213,10 +1222,10 @@ pub fn execute_c07(plan: &Plan) -> Outcome {
                 bump("upgrade_requests_to_server", 1);
             }
         }
-        if let Err(e) = control_tcp_via(ws, &c, &mut g, &log, b"after-the-barrage").await {
+        if let Err(e) = control_over(carrier, &c, &mut g, &log, b"after-the-barrage").await {
             notes.push(("service-down-after-inputs/tcp".into(), e));
         }
-        if plan.config.proto != Proto::Trojan {
+        if plan.config.proto != Proto::Trojan && !(plan.config.proto == Proto::Shadowsocks && carrier == Transport::Quic) {
             let before = log.lock().unwrap().udp.len();
             let t = crate::scen_udp::UdpTarget { ip: T_IP, port: T_PORT, name: None, replies: 0, reply_size: 0 };
             let _ = sock.send_to(&crate::scen_udp::socks5_udp_wrap(&t, b"udp-control-after-barrage"), SocketAddr::new(IpAddr::V4(Ipv4Addr::LOCALHOST), CLIENT_PORT)).await;
